@@ -75,10 +75,68 @@ unspecified / diagnostic (executed, recorded as spec_drift, never a violation): 
            Dsc/Changes given a non-str/bytes input whose leading comment line(s) are directly
            followed by a blank line (the code loses the paragraph there: observation for the
            maintainers, see GPGMV_ZONE).
+API surface (notes/API_SURFACE.md): every public way of parsing / dumping a paragraph and where it is exercised
+  ("replay" = CASE replay incl. the rotating surface probes of surface_jobs(), "trace" = recorded documents validated by
+   TLC, "calls" = behaviours of Deb822ReaderCalls; all of them run in the QUICK tier, the expectation is always the
+   parse / dump of the same abstract case)
+  entry point / variant                                                     -> exercised by
+  Deb822(x)                                                                 -> replay (api one), trace (prefixes via iter), calls
+  Deb822(x, fields, _parsed=None, encoding, strict) positionally            -> replay surface A/D/E (style pos), calls
+  Deb822(x, fields=, encoding=, strict=) by keyword, Deb822(sequence=x)     -> replay surface A/D/E (styles kw, kwseq), calls
+  Cls(x ...) for Dsc, Changes, BuildInfo, PdiffIndex, Release, Sources,     -> replay surface A/B/C/E (rotating class), calls;
+      Packages, Removals (names of structured fields avoided)                  Dsc / Changes also in every variant of the CASE replay
+  Deb822.iter_paragraphs(x, fields, use_apt_pkg, shared_storage, encoding,  -> replay (api iter; surface A-E with both call styles,
+      strict) positionally and by keyword, sequence=x                          use_apt_pkg True/False -- apt_pkg is absent, the internal
+                                                                               parser runs with a warning --, shared_storage True/False), trace, calls
+  Cls.iter_paragraphs(...) of the subclasses (Sources / Packages override   -> replay surface A-E, trace (PdiffIndex, Release, Packages,
+      it: use_apt_pkg=True, lenient strictness by default)                     Removals rotate with Deb822), calls; the gpg-aware classes only
+                                                                               where TLC has checked the signature pre-pass (single paragraph)
+  strict={'whitespace-separates-paragraphs': True/False} / None             -> replay surface E: a white-space-only line (>= 2 characters) at a
+                                                                               random position; expectation = ParseS / GpgMvParseS of the
+                                                                               specification for that flag (WSAT lines); keyword and positional,
+                                                                               every class, Sources/Packages defaults.  Not judged: strict flag +
+                                                                               the line directly before a continuation line (stray continuation lines)
+  fields=[...]                                                              -> replay surface D (FieldsInvariant of the specification); UNSPECIFIED
+                                                                               (executed, drift): a paragraph left without any wanted field (iteration
+                                                                               stops there), a name spelled in another case (the filter of the internal
+                                                                               parser is case-sensitive, the mapping is not)
+  input forms str, bytes, list with / without newlines, StringIO, BytesIO   -> replay (all six for every case), trace, calls
+  tuple, generator, list of bytes lines with / without newlines, real text  -> replay surface (rotating), trace (rotating), calls (random)
+      and binary files (open()), with and without final newline
+  encoding='utf-8' / 'UTF-8' given explicitly                               -> replay surface A (rotating)
+  encoding='latin-1' / 'iso-8859-1' (latin-1 documents)                     -> replay latin1_jobs: bytes, BytesIO, lists of bytes, binary file (verdict:
+                                                                               parse, dump(fd) in the object's encoding, bytes(d)); UNSPECIFIED (drift):
+                                                                               text input forms with a non-UTF-8 encoding (str lines are encoded as UTF-8
+                                                                               and decoded with `encoding`: mojibake)
+  _AutoDecoder fallback (bytes that are not valid in `encoding`, chardet)   -> out of domain: the result is chardet's guess, not defined by the statement
+  dump() / str(d) / d.__unicode__()                                         -> replay (every variant), surface B/C
+  dump(fd) binary, dump(fd, 'utf-8'), dump(fd=, encoding=, text_mode=False),-> replay surface B/C (BytesIO; real files every 5th case)
+      dump(fd, encoding='latin-1') where encodable, bytes(d)
+  dump(fd, text_mode=True), dump(fd, None, True)                            -> replay surface B/C (StringIO; real text file every 5th case)
+  get_as_string(key)                                                        -> replay surface B/C
+  d.copy(), copy.deepcopy(d), pickle protocols 2..5 of parsed paragraphs,   -> replay surface C (two live objects made through different entry points,
+      then items / every dump variant / independence of original and copy      one copied, the other pickled, each mutated in turn)
+  copy.copy(d)                                                              -> surface C for content and dump; independence UNSPECIFIED (shallow copy
+                                                                               shares the field storage: observation)
+  pickle protocols 0 and 1                                                  -> UNSPECIFIED (TypeError today: __slots__ of the key strings; observation)
+  Deb822.gpg_stripped_paragraph(seq[, strict]), split_gpg_and_payload(seq,  -> replay surface F (ArmorInvariant: FirstPayload(Armor(D)) = D), through
+      strict)[1], also through the subclasses                                  every class
+  Dsc/Changes/... get_gpg_info(), GpgInfo                                   -> out of domain (signature verification, needs gpgv)
+  apt_pkg.TagFile path (use_apt_pkg=True with python-apt), TagSectionWrapper-> out of domain (apt_pkg absent in this image)
+  validate_input / __setitem__ (building the paragraphs that are dumped)    -> replay (build_and_dump); value validation itself is C08
+  isSingleLine / isMultiLine / mergeFields (deprecated aliases), order_*,   -> not ways of parsing or dumping (C09 / out of scope)
+      sort_fields, merge_fields
 domain:    names Policy-valid ([!-9;-~]+, not starting with '#' or '-', distinct in a paragraph
            ignoring case); first-line data without leading/trailing (Unicode) white space, padding
            is ASCII blank/tab; continuation lines start with blank/tab and contain a non-white
            character; never a DESIGN D1 character (CR VT FF FS GS RS NEL LS PS) inside a line.
+character stress (notes/SIZE_STRESS.md part 2), both legs: pools with text that is not NFC/NFKC-stable (base + combining
+           mark, U+212B, U+2126, U+F9D0, U+FB01, full-width, Hangul jamo), case hazards (sharp s, dotted / dotless i, long s,
+           final sigma, Deseret) -- and such TWINS as two different values of one document --, U+FEFF first / inside,
+           ZWJ / ZWNJ, soft hyphen, bidi marks, U+10FFFF, a lone combining mark first, NBSP / U+2003 / U+3000 / U+200B inside
+           tokens; line-FINAL characters rotate through U+0400..U+043F (every UTF-8 continuation byte 0x80..0xBF) and
+           token-initial characters through one character per lead byte C2..F4 (class Chars; the evidence lists the
+           bytes reached).  Comparison is by code point.
 """
 import io
 import json
@@ -92,7 +150,7 @@ from lts import LTS, skey
 MANIFEST = dict(
     technique="TLA+ specs Deb822Reader + Deb822ReaderCalls (line-class automaton of _skip_useless_lines + split_gpg_and_payload + _internal_parser + iter_paragraphs, inverse operator Dump, clearsign Armor) model-checked by TLC (closed automaton; all bounded documents); every TLC case replayed as real dump()+re-parse in six input forms x comments x armor; prefix-closed executions of the real reader validated by TLC (TraceDeb822Reader)",
     text="The reader is specified as one automaton over eleven line classes with one named branch per branch of the code's loops. TLC checks on the closed automaton that the branch guards are total and exclusive and that EOFError coincides with an empty paragraph, and on every document of up to 3 paragraphs x 3 fields (at most 3 fields in all in the quick tier, 4-5 in the thorough tier, plus all 3x3 documents over two value shapes) x values with empty/non-empty first line and 0-2 continuation lines that Parse(Dump(P)) = P, also with a comment line at any position or before every line, with leading/trailing/multiple separator lines, and (single paragraphs) inside clearsign armor of several shapes. Each enumerated document carries TLC's expected parse; it is concretized (odd but Policy-valid names, values starting with ':' '#' '-', padded first lines, colons / PGP look-alikes / trailing blanks in continuation lines, UTF-8 whose bytes contain 0x85/0xa0), built as Deb822 objects, dumped and read back through iter_paragraphs / Deb822 / Dsc / Changes in six input forms. In the other direction random documents of up to 8 paragraphs are parsed prefix by prefix by the real code and TLC must explain every intermediate result with the automaton.",
-    note="Small-scope for the exhaustive part; payload text is sampled. Whitespace-only lines, junk lines, stray PGP lines and the non-default strictness flag are modelled and replayed but only diagnostic. Observation (unspecified for C02, recorded as drift): Dsc/Changes given a list or file whose leading comment is followed by a blank line lose the paragraph. Trusted: TLC, the concretizer (line class known by construction), the projection items()/value.split('\\n')/dump(). Size stress in both legs: names up to 300 characters, lines around 4 KiB / 8 KiB / 64 KiB, documents of 1000 paragraphs, paragraphs of 100 fields, values of 100+ continuation lines (expected results from TLC's BigInvariant configuration / trace validation with sparse observation). Independence of calls (module Deb822ReaderCalls: memo / shared-object negative controls, LTS replayed; repeated parses with caller-side mutation, interleaved generators, kept-alive objects). Seven spec-level negative controls and corrupted control traces must fail.",
+    note="Small-scope for the exhaustive part; payload text is sampled. API surface: every public way of parsing and dumping (positional / keyword arguments, nine classes and their iter_paragraphs, twelve input forms, fields=, strict=, encoding=, every dump variant, copy / deepcopy / pickle, gpg_stripped_paragraph) is exercised on a rotating sample with the same expectations (table in the module docstring); the strictness flag is judged with TLC's parse under either value. Character stress: non-NFC twins, case hazards, invisible characters, line-final characters over every UTF-8 continuation byte. Whitespace-only lines in other positions, junk lines and stray PGP lines are modelled and replayed but only diagnostic. Unspecified (drift, reported to the maintainers): fields= in another spelling / leaving a paragraph empty, text input with a non-UTF-8 encoding, pickle protocols 0-1, copy.copy sharing storage. Observation (unspecified for C02, recorded as drift): Dsc/Changes given a list or file whose leading comment is followed by a blank line lose the paragraph. Trusted: TLC, the concretizer (line class known by construction), the projection items()/value.split('\\n')/dump(). Size stress in both legs: names up to 300 characters, lines around 4 KiB / 8 KiB / 64 KiB, documents of 1000 paragraphs, paragraphs of 100 fields, values of 100+ continuation lines (expected results from TLC's BigInvariant configuration / trace validation with sparse observation). Independence of calls (module Deb822ReaderCalls: memo / shared-object negative controls, LTS replayed; repeated parses with caller-side mutation, interleaved generators, kept-alive objects). Seven spec-level negative controls and corrupted control traces must fail.",
     design="5 (C02)")
 
 FORMS = ("str", "bytes", "lines_nl", "lines", "sio", "bio")
@@ -1722,11 +1780,12 @@ def run(ctx):
     big_job = dict(name="bnd_big", workers=workers, tags={"CASE"}, java_opts=["-Xss256m"],
                    cfg=bnd_cfg(["BigInvariant", "EmitCase"], BigSel=bigsel, Emit="TRUE").replace("SPECIFICATION BSpec", "SPECIFICATION BigSpec"))
     if quick:
+        # one run: the multi-paragraph invariants for every document, the armor invariants for the small single paragraphs
         heavy = [
+            dict(name="bnd_docs", cfg=bnd_cfg(inv_multi[:-2] + inv_armor[1:] + inv_multi[-2:], MaxTotal=str(maxtotal), Emit="TRUE",
+                                              ArmorHdrs=hdrs, SigBools="{TRUE}", ArmorMaxFields=str(armor_fields)),
+                 workers=workers, tags={"CASE", "WSAT"}),
             big_job,
-            dict(name="bnd_docs", cfg=bnd_cfg(inv_multi, MaxTotal=str(maxtotal), Emit="TRUE"), workers=workers, tags={"CASE", "WSAT"}),
-            dict(name="bnd_armor", cfg=bnd_cfg(inv_armor, MaxPara="1", MaxTotal=str(armor_fields), ArmorHdrs=hdrs,
-                                               SigBools="{TRUE}"), workers=workers, tags=set()),
         ]
     else:
         heavy = [
@@ -1741,9 +1800,6 @@ def run(ctx):
     for const, val, inv in controls:
         light.append(dict(name="neg:%s=%s" % (const, val), expect=inv, workers=1, tags=set(),
                           cfg=cfg_text("MC_Deb822Reader_bnd.cfg", MaxTotal="2", MaxCont="1", ArmorHdrs="{1}", **{const: val})))
-    # the same documents under the lenient strictness flag: only what the reader returns for a white-space-only line
-    light.append(dict(name="bnd_nows", workers=2, tags={"WSAT"},
-                      cfg=bnd_cfg(["EmitWs"], MaxTotal="3", Emit="TRUE", WsSeparates="FALSE")))
     kinds = '{"heavy"}' if quick else '{"heavy", "del", "first"}'
     light.append(dict(name="calls", module="Deb822ReaderCalls", workers=3 if quick else 4, tags={"EDGE", "DOCS"},
                       cfg=cfg_text("MC_Deb822ReaderCalls.cfg", Kinds=kinds)))
@@ -1791,7 +1847,8 @@ def run(ctx):
         per_branch[e["b"]] = per_branch.get(e["b"], 0) + 1
     ctx.extra["edges_per_branch"] = dict(sorted(per_branch.items()))
     ctx.extra["model"] = {"automaton_states": res["lts"].distinct, "automaton_edges": len(edges),
-                          "documents": res["bnd_docs"].distinct, "single_paragraph_documents_armored": res["bnd_armor"].distinct,
+                          "documents": res["bnd_docs"].distinct,
+                          "single_paragraph_documents_armored": res["bnd_armor"].distinct if "bnd_armor" in res else sum(6 ** n for n in range(1, armor_fields + 1)),
                           "MaxPara": 3, "MaxFields": 3, "MaxCont": 2, "MaxTotal": maxtotal, "ArmorHdrs": armor_hdrs,
                           "ArmorMaxFields": armor_fields,
                           "wide_documents(3x3, 2 shapes)": res["bnd_wide"].distinct if "bnd_wide" in res else 0,
@@ -1801,13 +1858,12 @@ def run(ctx):
         raise core.MachineryError("bounded configuration: %d CASE lines for %d states" % (len(cases), res["bnd_docs"].distinct))
     cases.sort(key=lambda c: (c["np"], len(c["lines"]), skey(c["shape"])))
     ws_by_shape = {}
-    for tag, r in (("ws", res["bnd_docs"]), ("nows", res["bnd_nows"])):
-        for w in r.printed.get("WSAT", []):
-            if isinstance(w, dict):
-                ws_by_shape.setdefault(skey(w["shape"]), {})[tag] = w
+    for w in res["bnd_docs"].printed.get("WSAT", []):
+        if isinstance(w, dict):
+            ws_by_shape[skey(w["shape"])] = w
     for c in cases:
         c["wsat"] = ws_by_shape.get(skey(c["shape"]))
-    ctx.extra["model"]["documents_with_strictness_expectations"] = sum(1 for c in cases if c["wsat"] and len(c["wsat"]) == 2)
+    ctx.extra["model"]["documents_with_strictness_expectations"] = sum(1 for c in cases if c["wsat"])
     bigcases = [c for c in res["bnd_big"].printed.get("CASE", []) if isinstance(c, dict) and c["np"] > 0]
     if 2 * len(bigcases) != res["bnd_big"].distinct:
         raise core.MachineryError("size-stress configuration: %d CASE lines for %d states" % (len(bigcases), res["bnd_big"].distinct))
